@@ -13,8 +13,16 @@ Line protocol for C17 (see harness/c17.py).  The driver holds one system (design
   eval idf <0|1 normalize> c <D> x=<rats>                             -> v=<rats> j=<rows>
   eval mdf|dopt <o1,o2,..> x=<rats> y.<k>=<rats>.. w.<k>.<n>=<rows>.. [a=] [pos=]
                                                      -> v=.. j=.. | E:certificate
+  eval idfp <0|1 normalize> f|c ... (as `eval idf`)   -> the same over the MDOParallelChain (n_processes > 1)
+  equil cur=<rats> y.<k>=<rats>..                    -> current value after start_at_equilibrium | E:certificate
   mask <all names> <masking names>                   -> indices | E:value
   unmask <all> <masking> <x> <rows> <0|1 full>       -> rows of unmask(mask(x) * (r+1), default -(r+1))
+
+History of `jac` calls on the function objects of one formulation (heap of returned arrays, `JHeap`):
+  hreset <number of function objects>                -> ok
+  eval ... hold=<f>                                  -> (same answer) and the call is executed on the heap by
+                                                        function object <f>; the caller keeps the returned array
+  held                                               -> the arrays the caller holds, as they are NOW: m|m|...
 -/
 
 def parseMat? (s : String) : Option Mat :=
@@ -65,7 +73,7 @@ def fmtArgs (toks : List String) : Rat × Bool × Bool :=
   let p := kv "pos" toks
   (a.getD 0, p == some "1", a.isSome || p.isSome)
 
-def step (s : Sys) (line : String) : Sys × String :=
+def stepSys (s : Sys) (line : String) : Sys × String :=
   match tokens line with
   | ["reset"] => (⟨DS.empty, []⟩, "ok")
   | "ds" :: vs =>
@@ -104,6 +112,26 @@ def step (s : Sys) (line : String) : Sys × String :=
   | "eval" :: "idf" :: norm :: "c" :: dn :: rest =>
     match (kv "x" rest).bind parseRatList?, s.discs.find? (fun d => d.name == dn) with
     | some x, some d => (s, showEval (consEval s (norm == "1") d x) (consJac s (norm == "1") d x) 0 false false)
+    | _, _ => (s, "bad-op")
+  | "eval" :: "idfp" :: _norm :: "f" :: outs :: rest =>
+    match (kv "x" rest).bind parseRatList? with
+    | none => (s, "bad-op")
+    | some x =>
+      let outs := parseStrList outs
+      let (a, pos, fmt) := fmtArgs rest
+      (s, showEval (parEval s s.sizes s.ds.names outs x) (parJacF s s.sizes s.ds.names outs x) a pos fmt)
+  | "eval" :: "idfp" :: norm :: "c" :: dn :: rest =>
+    match (kv "x" rest).bind parseRatList?, s.discs.find? (fun d => d.name == dn) with
+    | some x, some d =>
+      (s, showEval (consEvalPar s (norm == "1") d x) (consJacPar s (norm == "1") d x) 0 false false)
+    | _, _ => (s, "bad-op")
+  | "equil" :: rest =>
+    match (kv "cur" rest).bind parseRatList?,
+      (kvWith "y." rest).mapM (fun p => (parseRatList? p.2).map (fun v => (p.1, v))) with
+    | some cur, some ys =>
+      match idfEquilibrium s cur ys with
+      | some c => (s, showRatList c)
+      | none => (s, "E:certificate")
     | _, _ => (s, "bad-op")
   | "eval" :: form :: outs :: rest =>
     if form != "mdf" && form != "dopt" then (s, "bad-op") else
@@ -149,4 +177,108 @@ def step (s : Sys) (line : String) : Sys × String :=
     | _, _ => (s, "bad-op")
   | _ => (s, "bad-op")
 
-def main : IO Unit := driverLoop step ⟨DS.empty, []⟩
+/-- Driver state: the system, the heap of arrays, the cells the caller holds (in call order). -/
+structure DSt where
+  sys : Sys
+  heap : JHeap
+  callerHeld : List Nat
+
+def keep (st : DSt) (h : JHeap) : DSt :=
+  { st with heap := h, callerHeld := st.callerHeld ++ [h.ret.getLastD 0] }
+
+/-- A function whose `jac` allocates its result (or returns a constant array never written). -/
+def holdFresh (st : DSt) (m : Option Mat) : DSt :=
+  match m with
+  | none => st
+  | some m => keep st (st.heap.freshCall m)
+
+/-- A `FunctionFromDiscipline` (`neg`: wrapped by `-f` for a positive inequality, a new array). -/
+def holdFfd (st : DSt) (f : Nat) (parts : Option (Mat × (Mat → Option Mat))) (neg : Bool) : DSt :=
+  match parts with
+  | none => st
+  | some p =>
+    match st.heap.ffdJacCall f p.1 p.2 with
+    | none => st
+    | some h1 =>
+      if neg then keep st (h1.freshCall (formatJac true (h1.read (h1.ret.getLastD 0)))) else keep st h1
+
+/-- A `ConsistencyConstraint`: `jac` of its coupling function (function object `f`), then `coupl_jac - x_jac`
+    (optionally scaled) in a new array. -/
+def holdCons (st : DSt) (f : Nat) (parts : Option (Mat × (Mat → Option Mat))) (final : Option Mat) : DSt :=
+  match parts with
+  | none => st
+  | some p =>
+    match st.heap.ffdJacCall f p.1 p.2 with
+    | none => st
+    | some h1 => holdFresh { st with heap := h1 } final
+
+def holdStep (st : DSt) (f : Nat) (toks : List String) : DSt :=
+  let s := st.sys
+  match toks with
+  | "eval" :: "idf" :: _ :: "f" :: outs :: rest =>
+    match (kv "x" rest).bind parseRatList?, (parseStrList outs).head?.bind s.producer? with
+    | some x, some d =>
+      let outs := parseStrList outs
+      let (_, pos, fmt) := fmtArgs rest
+      if d.isLinear outs then
+        holdFresh st ((funJac s.sizes s.ds.names d outs x).map (fun j => if fmt then formatJac pos j else j))
+      else
+        holdFfd st f (gJacParts s.sizes s.ds.names d.hasInput (d.jac s.sizes) d.rowsOf outs x) (fmt && pos)
+    | _, _ => st
+  | "eval" :: "idfp" :: _ :: "f" :: outs :: rest =>
+    match (kv "x" rest).bind parseRatList? with
+    | some x =>
+      let (_, pos, fmt) := fmtArgs rest
+      holdFfd st f (gJacParts s.sizes s.ds.names s.parHasInput (s.parJac s.sizes) s.parRowsOf (parseStrList outs) x)
+        (fmt && pos)
+    | none => st
+  | "eval" :: "idf" :: norm :: "c" :: dn :: rest =>
+    match (kv "x" rest).bind parseRatList?, s.discs.find? (fun d => d.name == dn) with
+    | some x, some d =>
+      let oc := s.outputCouplings d
+      if d.isLinear oc then holdFresh st (consJac s (norm == "1") d x)
+      else holdCons st f (gJacParts s.sizes s.ds.names d.hasInput (d.jac s.sizes) d.rowsOf oc x)
+        (consJacRaw s (norm == "1") d x)
+    | _, _ => st
+  | "eval" :: "idfp" :: norm :: "c" :: dn :: rest =>
+    match (kv "x" rest).bind parseRatList?, s.discs.find? (fun d => d.name == dn) with
+    | some x, some d =>
+      holdCons st f (gJacParts s.sizes s.ds.names s.parHasInput (s.parJac s.sizes) s.parRowsOf (s.outputCouplings d) x)
+        (consJacPar s (norm == "1") d x)
+    | _, _ => st
+  | "eval" :: form :: outs :: rest =>
+    if form != "mdf" && form != "dopt" then st else
+    match (kv "x" rest).bind parseRatList?,
+      (kvWith "y." rest).mapM (fun p => (parseRatList? p.2).map (fun v => (p.1, v))),
+      (kvWith "w." rest).mapM (fun p => (parseMat? p.2).map (fun m => (p.1, m))) with
+    | some x, some ys, some ws =>
+      let names := if form == "mdf" then s.mdfDS.names else s.doptDS.names
+      let w : String → String → Mat := fun k n =>
+        match ws.find? (fun p => p.1 == k ++ "." ++ n) with
+        | some p => p.2
+        | none => []
+      let (_, pos, fmt) := fmtArgs rest
+      match mdfView s names (parseStrList outs) x ys w with
+      | some _ =>
+        let point := namedPoint s.sizes names x ++ ys
+        holdFfd st f (some (mdaJacRows s names (parseStrList outs) point w,
+          fun m => unmaskRows s.sizes names names m none)) (fmt && pos)
+      | none => st
+    | _, _, _ => st
+  | _ => st
+
+def step (st : DSt) (line : String) : DSt × String :=
+  match tokens line with
+  | ["hreset", n] => ({ st with heap := JHeap.empty (n.toNat?.getD 0), callerHeld := [] }, "ok")
+  | ["held"] =>
+    (st, if st.callerHeld.isEmpty then "[]" else "|".intercalate (st.callerHeld.map (fun c => showMat (st.heap.read c))))
+  | toks =>
+    let hold := (kv "hold" toks).bind (·.toNat?)
+    let plain := toks.filter (fun t => !t.startsWith "hold=")
+    let (s', ans) := stepSys st.sys (" ".intercalate plain)
+    let st' := { st with sys := s' }
+    match hold with
+    | some f => if ans.startsWith "v=" then (holdStep st' f plain, ans) else (st', ans)
+    | none => (st', ans)
+
+def main : IO Unit := driverLoop step ⟨⟨DS.empty, []⟩, JHeap.empty 0, []⟩
